@@ -191,7 +191,7 @@ def helpers():
         rank = {j: k for k, j in enumerate(idx)}
         return len(idx), (lambda k: idx[k]), (lambda j: rank[j])
     return dict(forall=forall, exists=exists, given=given, forall2=forall2, implies=implies, iff=iff, at=at, ite=ite, sort_perm=sort_perm,
-                mask_index=mask_index, is_none=lambda x: x is None,
+                mask_index=mask_index, is_none=lambda x: x is None, named=lambda x: x,
                 spec_db2lin=lambda x: 10 ** (np.asarray(x) / 10) if not np.isscalar(x) else 10 ** (x / 10),
                 spec_lin2db=lambda x: 10 * np.log10(x),
                 _eq=_eq, _le=_le, _ge=lambda a, b: _le(b, a), _ne=lambda a, b: not _eq(a, b),
